@@ -144,10 +144,24 @@ def path_agreement(ctx, P, py, rule="NEWICK-PATHS"):
            tm.loc(bn), "branch length depends only on include_branch_lengths")
     for name in ("write_fasta", "write_nexus"):
         f = py.func("text_formats", name)
-        sf = ast.unparse(f)
-        ok = "for u, alignment in zip(ts.samples(), alignments):" in sf and "f'n{u}'" in sf
+        # structural, name-independent: a loop over zip(ts.samples(), <alignments>) whose label uses the first target
+        ok = False
+        ok2 = False
+        aln_vars = set()
+        for a in ast.walk(f):
+            if isinstance(a, ast.Assign) and isinstance(a.value, ast.Call) and call_name(a.value) == "ts.alignments":
+                kws = {k.arg: ast.unparse(k.value) for k in a.value.keywords}
+                ok2 = kws.get("reference_sequence") == "reference_sequence" and kws.get("missing_data_character") == "missing_data_character"
+                aln_vars |= {t.id for t in a.targets if isinstance(t, ast.Name)}
+        for lp in ast.walk(f):
+            if isinstance(lp, ast.For) and isinstance(lp.iter, ast.Call) and call_name(lp.iter) == "zip" and len(lp.iter.args) == 2:
+                a0, a1 = lp.iter.args
+                if ast.unparse(a0) == "ts.samples()" and isinstance(a1, ast.Name) and a1.id in aln_vars \
+                        and isinstance(lp.target, ast.Tuple) and len(lp.target.elts) == 2 and isinstance(lp.target.elts[0], ast.Name):
+                    uid = lp.target.elts[0].id
+                    labels = [j for j in ast.walk(lp) if isinstance(j, ast.JoinedStr) and ast.unparse(j) == "f'n{%s}'" % uid]
+                    ok = bool(labels)
         ctx.ob(rule, "%s|sample-pairing" % name, ok, tm.loc(f), "rows pair zip(ts.samples(), alignments) and are labelled n<sample id>")
-        ok2 = "ts.alignments(reference_sequence=reference_sequence, missing_data_character=missing_data_character)" in sf
         ctx.ob(rule, "%s|alignments" % name, ok2, tm.loc(f), "sequences come from ts.alignments(...) with the options forwarded")
     nx = ast.unparse(py.func("text_formats", "write_nexus"))
     ctx.ob(rule, "nexus|taxlabels", "' '.join((f'n{u}' for u in ts.samples()))" in nx, tm.loc(py.func("text_formats", "write_nexus")), "TAXLABELS list every sample as n<id>")
